@@ -243,8 +243,8 @@ class Shapes:
                 out.append(_byte_shape(e[1]))
             elif k == 'write':
                 v = strip(e[1])
-                if isinstance(v, tuple) and v[0] == 'array' and all(isinstance(x, tuple) and x[0] == 'lit' for x in v[1]):
-                    out.extend(('byte', x[1]) for x in v[1])
+                if isinstance(v, tuple) and v[0] == 'array':
+                    out.extend(_byte_shape(x) for x in v[1])
                 else:
                     out.append(('opaque', 'write of ' + sym.vstr(v)[:60]))
             elif k == 'prim_le':
@@ -466,9 +466,48 @@ def _slice_helper_arg(e):
                         if y[0] == 'star':
                             src = _iter_src(strip(y[1]))
                             encs = [z for z in sym.walk(y[2]) if z[0] == 'enc']
+                            if src == ('loop',):
+                                # `while i < slice.len() { slice[i].encode_to(dest); i += 1 }`
+                                idx = _indexed_loop(y)
+                                if idx is not None and len(encs) == 1:
+                                    return idx, encs[0][1]
+                                continue
                             if len(encs) == 1:
                                 return src, encs[0][1]
     return None, None
+
+
+def _indexed_loop(star):
+    """for a counter loop `i = 0; while i < len(X) { .. X[i] ..; i += 1 }` return X"""
+    its_ = items(star[2])
+    alts = [x for x in its_ if x[0] == 'alt']
+    if len(alts) != 1 or len(its_) != 1 or not (isinstance(alts[0][1], tuple) and alts[0][1][0] == 'if'):
+        return None
+    c = strip(alts[0][1][1])
+    arms = dict(alts[0][2])
+    if not (isinstance(c, tuple) and c[0] == 'bin' and c[1] == 'Lt' and isinstance(strip(c[2]), tuple) and strip(c[2])[0] == 'mutvar'):
+        return None
+    ctr = strip(c[2])
+    bound = strip(c[3])
+    init = strip(ctr[3])
+    if not (isinstance(init, tuple) and init[0] == 'lit' and init[1] == 0):
+        return None
+    if not (isinstance(bound, tuple) and bound[0] == 'call' and bound[1] == 'len'):
+        return None
+    X = strip(bound[3][0])
+    body = arms.get('true')
+    if body is None or arms.get('false') not in (['eps'], None):
+        return None
+    sets = [x for x in sym.walk(body) if x[0] == 'SET' and strip(x[1])[:2] == ctr[:2]]
+    if len(sets) != 1 or sets[0][3] != 'AddAssign' or not sym.vstr(sets[0][2]).startswith('1:'):
+        return None
+    encs = [z for z in sym.walk(body) if z[0] == 'enc']
+    if len(encs) != 1:
+        return None
+    op = strip(encs[0][2])
+    okop = isinstance(op, tuple) and ((op[0] == 'index' and sym.vstr(op[1]) == sym.vstr(X) and strip(op[2])[:2] == ctr[:2]) or
+                                      (op[0] == 'call' and op[1] == 'index' and sym.vstr(op[3][0]) == sym.vstr(X) and strip(op[3][1])[:2] == ctr[:2]))
+    return X if okop else None
 
 
 def _iter_src(v):
